@@ -690,6 +690,50 @@ def run(ctx: Any, prog: Program) -> None:
         for m_ in scalar_members:
             ctx.check('C06.V17', normalised, vm, call, f'DispVertex.{m_} is written as `{U(call)[:50]}`: an int assigned through the API (the default distance is the int 0) is written as "0" but re-parsed as the float 0.0 '
                       'and written as "0.0" the next time - exporting, parsing and exporting again does not reproduce the text', func='Side._export_disp_rowset', text=f'row member {m_} has one spelling')
+    # ---- V19: a number read from the file is stored as read --------------------------------------------------------------------------
+    # `float(text) or 0.25` replaces the representable value 0 by something else: the writer emitted "0", the reader returns 0.25.
+    ctx.rule('C06.V19', 'parsers store a converted number as it is: no `<conversion> or <fallback>` that replaces a parsed zero', floor=25)
+    NUM_CONV = {'float', 'int', 'conv_float', 'conv_int', 'srctools.conv_float', 'srctools.conv_int'}
+
+    def zero_replaced(fn_node: ast.AST) -> List[ast.BoolOp]:
+        out_ = []
+        for b in ast.walk(fn_node):
+            if isinstance(b, ast.BoolOp) and isinstance(b.op, ast.Or) and isinstance(b.values[0], ast.Call) and dotted(b.values[0].func) in NUM_CONV:
+                if any(not (isinstance(v, ast.Constant) and v.value in (0, 0.0)) for v in b.values[1:]):
+                    out_.append(b)
+        return out_
+    probe19 = ast.parse("def parse(vals):\n    return dict(scale=float(vals[4]) or 0.25, offset=float(vals[3]))").body[0]
+    if len(zero_replaced(probe19)) != 1:
+        raise AnalysisError('V19: the detector does not fire on its built-in positive example')
+    n19 = 0
+    for qual19, fn19 in [(q_, f_) for q_, fl_ in vm.all_funcs().items() for f_ in fl_]:
+        short = qual19.split('.')[-1]
+        if not (short == 'parse' or short.startswith(('_parse', 'parse_'))):
+            continue
+        convs = [c for c in ast.walk(fn19) if isinstance(c, ast.Call) and dotted(c.func) in NUM_CONV]
+        bad19 = zero_replaced(fn19)
+        for c in convs:
+            n19 += 1
+            hit = next((b for b in bad19 if b.values[0] is c), None)
+            ctx.check('C06.V19', hit is None, vm, c, f'{qual19} stores `{U(hit)[:60] if hit is not None else ""}`: a zero in the file (which the writer produces for a zero in memory) comes back as the fallback value instead',
+                      func=qual19, text=f'{qual19}: {U(c)[:40]} stored as read')
+    # ---- V20: what the exporters walk is written completely ----------------------------------------------------------------------------
+    ctx.rule('C06.V20', 'every collection an exporter walks is written completely: the export call on the loop element is not under a test on that element', floor=9)
+    for qual20, fn20 in [(q_, f_) for q_, fl_ in vm.all_funcs().items() for f_ in fl_]:
+        for lp20 in [l for l in walk_no_nested(fn20) if isinstance(l, ast.For) and isinstance(l.target, ast.Name)]:
+            for c in ast.walk(lp20):
+                if isinstance(c, ast.Call) and isinstance(c.func, ast.Attribute) and c.func.attr.startswith('export') and isinstance(c.func.value, ast.Name) and c.func.value.id == lp20.target.id:
+                    conds = []
+                    p20 = vm.parents.get(c)
+                    while p20 is not None and p20 is not lp20:
+                        if isinstance(p20, ast.If) and any(isinstance(x, ast.Name) and x.id == lp20.target.id for x in ast.walk(p20.test)):
+                            conds.append(p20)
+                        p20 = vm.parents.get(p20)
+                    skips = [i for i in lp20.body if isinstance(i, ast.If) and any(isinstance(x, ast.Continue) for x in i.body) and any(isinstance(x, ast.Name) and x.id == lp20.target.id for x in ast.walk(i.test))
+                             and i.lineno < c.lineno]
+                    filt = conds + skips
+                    ctx.check('C06.V20', not filt, vm, filt[0] if filt else c, f'{qual20}: elements of `{U(lp20.iter)[:40]}` are written only when `{U(filt[0].test)[:60] if filt else ""}`: the others are missing from the file '
+                              '(and from the map read back), although they are part of the object graph', func=qual20, text=f'{qual20}: all of {U(lp20.iter)[:40]} written')
     # ---- V18: positional constructor calls in the parsers agree with the declared field / parameter order ------------------------------
     ctx.rule('C06.V18', 'a parsed value reaches the field it was read for: locals passed positionally to a constructor sit at the position of the field of the same name', floor=20)
 
@@ -1204,6 +1248,8 @@ def elt_token_alternatives(elt: ast.AST, tokens_of_type: Dict[str, int]) -> Opti
 
 
 MUTANTS = [
+    {'id': 'uvaxis_zero_scale_replaced', 'file': 'vmf.py', 'find': "            scale=float(vals[4]),\n", 'replace': "            scale=float(vals[4]) or 0.25,\n", 'expect': 'C06.V19'},
+    {'id': 'unused_groups_not_exported', 'file': 'vmf.py', 'find': "            for group in self.map.groups.values():\n                group.export(buffer, ind + '\\t')", 'replace': "            used_groups = {solid.group_id for solid in self.solids}\n            for group in self.map.groups.values():\n                if group.id in used_groups:\n                    group.export(buffer, ind + '\\t')", 'expect': 'C06.V20'},
     {'id': 'solid_vis_fields_swapped', 'file': 'vmf.py', 'find': "            vis_shown,\n            vis_auto_shown,\n            is_cordon,\n            editor_color,\n        )", 'replace': "            vis_auto_shown,\n            vis_shown,\n            is_cordon,\n            editor_color,\n        )", 'expect': 'C06.V18'},
     {'id': 'disp_row_key_single_digit', 'file': 'vmf.py', 'find': "            if row_prop.name.startswith('row'):\n                y = int(row_prop.name[3:])\n            else:\n                continue  # Ignore unknown keys.\n", 'replace': "            match = re.match(r'row(\\d)', row_prop.name)\n            if match is None:\n                continue\n            y = int(match.group(1))\n", 'expect': 'C06.V8'},
     {'id': 'disp_row_key_all_digits', 'file': 'vmf.py', 'find': "            if row_prop.name.startswith('row'):\n                y = int(row_prop.name[3:])\n            else:\n                continue  # Ignore unknown keys.\n", 'replace': "            match = re.match(r'row(\\d+)$', row_prop.name)\n            if match is None:\n                continue\n            y = int(match.group(1))\n", 'expect': None},
